@@ -263,3 +263,79 @@ def bnd_concurrent(tier, seed):
     return {"evaluations": n_eval, "distinct": len(distinct), "failures": list(fails),
             "scope": f"{rounds} rounds with 2..30 concurrent requesters, replies in random permutation with a quarter missing, unrelated primaries interleaved",
             "rule": "distinct = (number of requesters, round)", "samples": [{"callers": 5, "missing": 1}]}
+
+
+@fd("C06", "allocator-frame")
+def fd_allocator_frame():
+    """Frame condition of the allocator contract: in the whole package only __init__ and get_next_system_counter write
+    Protocol._system_counter (so every id in use was handed out by the verified function)."""
+    import os
+    import secsgem
+    root = os.path.dirname(secsgem.__file__)
+    writes = []
+    for dp, _, files in os.walk(root):
+        for fn in files:
+            if not fn.endswith(".py"):
+                continue
+            path = os.path.join(dp, fn)
+            tree = ast.parse(open(path, encoding="utf-8").read())
+            for func in ast.walk(tree):
+                if isinstance(func, (ast.FunctionDef, ast.AsyncFunctionDef)):
+                    for node in ast.walk(func):
+                        tg = []
+                        if isinstance(node, ast.Assign):
+                            tg = node.targets
+                        elif isinstance(node, (ast.AugAssign, ast.AnnAssign)):
+                            tg = [node.target]
+                        for t in tg:
+                            if isinstance(t, ast.Attribute) and t.attr == "_system_counter":
+                                writes.append((os.path.relpath(path, root), func.name, node.lineno))
+                        if isinstance(node, ast.Call) and isinstance(node.func, ast.Name) and node.func.id == "setattr" and len(node.args) > 1 \
+                                and isinstance(node.args[1], ast.Constant) and node.args[1].value == "_system_counter":
+                            writes.append((os.path.relpath(path, root), func.name, node.lineno))
+    outside = sorted({w for w in writes if w[1] not in ("__init__", "get_next_system_counter")})
+    return {"obligations": [{"name": "only-the-allocator-writes-the-counter", "ok": not outside and len(writes) >= 2, "witness": {"writes": sorted(set(writes)), "outside": outside},
+                             "detail": "Protocol._system_counter is written outside __init__/get_next_system_counter: ids handed out earlier can be handed out again"}],
+            "domain": "all assignments to _system_counter in the package", "size": len(writes), "exhaustive": True, "samples": [list(w) for w in writes[:3]]}
+
+
+@fd("C06", "delivery-after-handler-failure")
+def fd_handler_failure():
+    """Every inbound data message is handed to the application exactly once, in order - also when a handler raises and when
+    a later message re-uses the system bytes of an earlier one (HSMS single-block and SECS-I multi-block reassembly)."""
+    obs = []
+    for kind in ("hsms", "secsi"):
+        if kind == "hsms":
+            proto, conn, log = selected_protocol(sync=True)
+        else:
+            proto, conn, log = H.make_secsi(sync=True)
+            proto.enable()
+            conn.connect()
+        try:
+            seen = []
+
+            def handler(data, seen=seen):
+                m = data["message"]
+                seen.append((m.header.system, bytes(m.data)))
+                if len(seen) == 1:
+                    raise RuntimeError("application callback failed")
+            proto.events.message_received += handler
+            bodies = [R.encode(("L", [("B", b"\x01"), ("A", "first")])), R.encode(("L", [("B", b"\x01"), ("A", "second")])),
+                      R.encode(("L", [("B", b"\x01"), ("A", "x" * 600)])), R.encode(("L", [("B", b"\x01"), ("A", "fourth")]))]
+            systems = [5, 5, 6, 5]
+            if kind == "hsms":
+                for s, b in zip(systems, bodies):
+                    conn.feed(H.frame(0, s, 10, 3, False, b))
+            else:
+                from secsgem.secsi.header import SecsIHeader
+                from secsgem.secsi.message import SecsIMessage
+                for s, b in zip(systems, bodies):
+                    for blk in SecsIMessage(SecsIHeader(s, 0, 10, 3), b).blocks:
+                        proto._dispatch_block(proto, blk)
+            want = list(zip(systems, bodies))
+            obs.append({"name": f"{kind}.once-in-order-despite-handler-exception", "ok": seen == want,
+                        "witness": {"delivered": [(s, len(b)) for s, b in seen], "expected": [(s, len(b)) for s, b in want]},
+                        "detail": "after a handler exception, messages re-using the same system bytes were lost, duplicated or merged"})
+        finally:
+            H.shutdown(proto, conn)
+    return {"obligations": obs, "domain": "HSMS and SECS-I: 4 messages, first handler call raises, system bytes re-used", "size": 2, "exhaustive": False, "samples": [{"systems": [5, 5, 6, 5]}]}
